@@ -97,11 +97,40 @@ def audit(prop: str) -> list[dict]:
 
 
 def leanchecker(modules: list[str]) -> float:
-    t0 = time.time()
-    pr = subprocess.run(["lake", "env", "leanchecker", *modules], cwd=LEAN, capture_output=True, text=True)
-    if pr.returncode != 0:
-        raise Broken("leanchecker failed:\n" + (pr.stdout + pr.stderr)[-4000:])
-    return time.time() - t0
+    """Independent re-check (Lean's `leanchecker`) of *every* module of the library — models, lemmas, properties — not
+    only of the property's own file: its theorems rest on all of them.  The re-check of one set of compiled files is
+    shared by the thorough checks that find the same files (a stamp next to the build output, keyed by their content)."""
+    import fcntl
+    import hashlib
+
+    lib = LEAN / ".lake" / "build" / "lib" / "lean"
+    oleans = sorted(lib.rglob("*.olean"))
+    if not oleans:
+        raise Broken("no compiled files to re-check")
+    hsh = hashlib.sha256()
+    for f in oleans:
+        hsh.update(str(f.relative_to(lib)).encode())
+        hsh.update(f.read_bytes())
+    digest = hsh.hexdigest()
+    stamp = LEAN / ".lake" / "leanchecker.stamp"
+    all_modules = sorted({str(f.relative_to(lib))[: -len(".olean")].replace("/", ".") for f in oleans
+                          if str(f.relative_to(lib)).startswith("CuriesVerif")})
+    with open(LEAN / ".leancheck.lock", "w") as lock:
+        fcntl.flock(lock, fcntl.LOCK_EX)
+        if stamp.exists():
+            try:
+                st = json.loads(stamp.read_text())
+                if st.get("digest") == digest and set(modules) <= set(st.get("modules", [])):
+                    return float(st["seconds"])
+            except Exception:  # noqa: BLE001
+                pass
+        t0 = time.time()
+        pr = subprocess.run(["lake", "env", "leanchecker", *all_modules], cwd=LEAN, capture_output=True, text=True)
+        if pr.returncode != 0:
+            raise Broken("leanchecker failed:\n" + (pr.stdout + pr.stderr)[-4000:])
+        secs = time.time() - t0
+        stamp.write_text(json.dumps({"digest": digest, "modules": all_modules, "seconds": round(secs, 1)}))
+        return secs
 
 
 # --------------------------------------------------------------------------------------------
@@ -308,7 +337,8 @@ def decide(prop_id: str, tier: str, seed: int) -> int:
     if hasattr(prop, "exhaustive"):
         exhaustive = prop.exhaustive(tier)
         if exhaustive is not None:
-            bad.extend(exhaustive.get("bad", []))
+            # failing cases of an exhaustive small scope are minimal by construction: report them first
+            bad = list(exhaustive.get("bad", [])) + bad
 
     # ---- 4. outcome
     spec_failures = [r for r in bad if r["fails"]]
@@ -404,7 +434,7 @@ def decide(prop_id: str, tier: str, seed: int) -> int:
         "obligations": len(thms),
         "discharged": len(thms),
         "checker_cmd": "cd lean && lake build && lake env lean --run Audit.lean " + prop_id
-                       + (" && lake env leanchecker " + " ".join(prop.lean_modules) if tier == "thorough" else ""),
+                       + (" && lake env leanchecker <every module of CuriesVerif>" if tier == "thorough" else ""),
         "trusted_base": prop.trusted_base,
         "theorems": [{"name": t["name"], "axioms": t["axioms"]} for t in thms],
         "evaluations": agg["evals"] + n_corpus,
